@@ -240,6 +240,99 @@ func c09ReachableInPkg(root *ssa.Function, depth int) []*ssa.Function {
 	return out
 }
 
+// c09Bind maps a value of a helper's body to the value it stands for in the
+// function under analysis (nil: not expressible there).
+type c09Bind func(v ssa.Value) ssa.Value
+
+func c09Identity(v ssa.Value) ssa.Value { return v }
+
+// c09EffectSites lists the instructions of fn that perform the effect described
+// by isEffect: a matching call, or a call of an in-package helper every
+// nil-error return of which has performed it (depth <= 2), the helper's
+// parameters being bound to the arguments of the call.
+func c09EffectSites(fn *ssa.Function, bind c09Bind, isEffect func(call ssa.CallInstruction, bind c09Bind) bool, depth int) []ssa.Instruction {
+	var out []ssa.Instruction
+	for _, call := range Calls(fn, func(string) bool { return true }) {
+		if _, isCall := call.(*ssa.Call); !isCall {
+			continue
+		}
+		if isEffect(call, bind) {
+			out = append(out, call.(ssa.Instruction))
+			continue
+		}
+		g := StaticCallee(call)
+		if g == nil || depth <= 0 || len(g.Blocks) == 0 || fnPkgPath(g) != fnPkgPath(fn) || g == fn {
+			continue
+		}
+		args := call.Common().Args
+		gb := func(v ssa.Value) ssa.Value {
+			if v == nil {
+				return nil
+			}
+			if pf, i := c09ParamOf(v); pf == g && i < len(args) {
+				return bind(args[i])
+			}
+			return nil
+		}
+		inner := c09EffectSites(g, gb, isEffect, depth-1)
+		if len(inner) > 0 && c09NilReturnsPass(g, inner) {
+			out = append(out, call.(ssa.Instruction))
+		}
+	}
+	return out
+}
+
+// c09NilReturnsPass: every return of g that may carry a nil error (every return,
+// if g has no error result) has executed one of the instructions.
+func c09NilReturnsPass(g *ssa.Function, ins []ssa.Instruction) bool {
+	ct := newCut().Instr(ins...)
+	errIdx := ErrResultIndex(g.Signature)
+	if errIdx < 0 {
+		for _, r := range Returns(g) {
+			if ReachableFromEntry(r) && !MustPass(r, ct) {
+				return false
+			}
+		}
+		return true
+	}
+	for _, a := range RetAtoms(g, errIdx) {
+		if ErrNilStatus(a.Val, 0) == NonNil {
+			continue
+		}
+		if !AtomMustPass(a, ct) {
+			return false
+		}
+	}
+	return true
+}
+
+// c09DescBase: x is <D>.Digest (or another field) of a descriptor value: returns D
+// (the stored value for a single-store cell).
+func c09FieldBase(x ssa.Value, field string) ssa.Value {
+	rs := Roots(x)
+	if len(rs) != 1 {
+		return nil
+	}
+	switch u := rs[0].(type) {
+	case *ssa.UnOp:
+		fa, ok := u.X.(*ssa.FieldAddr)
+		if !ok || u.Op != token.MUL || !strings.HasSuffix(fieldName(fa.X.Type(), fa.Field), "."+field) {
+			return nil
+		}
+		if a, ok := fa.X.(*ssa.Alloc); ok {
+			if st := storesTo(a); len(st) == 1 {
+				return st[0].Val
+			}
+		}
+		return nil
+	case *ssa.Field:
+		if strings.HasSuffix(fieldName(u.X.Type(), u.Field), "."+field) {
+			return u.X
+		}
+	}
+	return nil
+}
+
 // c09PureAccessors: methods whose result depends only on the receiver value
 // (two calls on the same receiver denote the same value).
 var c09PureAccessors = map[string]bool{
